@@ -36,10 +36,17 @@ Definition pat_c06 (g : molg) : C06_Model.graph :=
   LG (map (fun p => (fst p, ([m_el (snd p); zcode (m_ch (snd p))], Z.to_N (m_hc (snd p))))) (gnodes g))
      (map (fun e => let '(u, v, o) := e in (u, v, [zcode o])) (gedges g)).
 
-(** the reactor's configuration of the search engine: no max_results, default threshold 5000,
-    strict_cc_count = True, pre_filter = False *)
+(** the reactor's configuration of the search engine: no max_results, strict_cc_count = True, pre_filter = False, and the
+    embedding cap:  SynReactor(embed_threshold = k)  is handed to find_subgraph_mappings(threshold = k), which takes
+      thresh = threshold if threshold is not None else DEFAULT_THRESHOLD          (k = 0 is a real cap, not "no cap")
+    [eff_thr] is that line.  Everything below is parametrised by the effective cap [thr_val] (a type class, so that the
+    cap is threaded through every definition and every theorem without being written at each use); the run functions at
+    the end of the file instantiate it with [eff_thr] of the option the harness passed to the reactor. *)
 Definition DEFAULT_THRESHOLD : N := 5000%N.
-Definition cfg_of (strat : N) : C06_Model.cfg := C06_Model.Cfg strat 0%N DEFAULT_THRESHOLD true false.
+Definition eff_thr (embed_threshold : option N) : N :=
+  match embed_threshold with Some k => k | None => DEFAULT_THRESHOLD end.
+Class Thr := { thr_val : N }.
+Definition thr_of (embed_threshold : option N) : Thr := {| thr_val := eff_thr embed_threshold |}.
 
 (** ** the verified enumerator lib/Mono.v with a lazily evaluated admissibility test.
     vm_compute is call-by-value: in Mono's [ok] the edge test over the whole partial map is evaluated even when the
@@ -65,6 +72,10 @@ Section Fast.
 End Fast.
 Definition monos' {A B} (pn hn : list N) (pl hl : N -> A) (pe he : N -> N -> option B) nm em induced : list (list (N * N)) :=
   extend' A B hn pl hl pe he nm em induced pn [].
+
+Section WithThr.
+Context {TH : Thr}.
+Definition cfg_of (strat : N) : C06_Model.cfg := C06_Model.Cfg strat 0%N thr_val true false.
 
 (** C06's [monos_on] with the lazy test *)
 Definition monos_on' (H P : C06_Model.graph) (hn pn : list N) : list mapping :=
@@ -174,14 +185,14 @@ Definition closedb (rc : its) : bool :=
 Definition all_enum (host : hostg) (p : prepared) : list mapping :=
   let H := host_c06 host in let P := pat_c06 (p_pat p) in monos_on' H P (node_ids H) (node_ids P).
 Definition raw_of_enum (it : list mapping) : list mapping :=
-  if (DEFAULT_THRESHOLD <? C06_Model.lenN it)%N then [] else it.
+  if (thr_val <? C06_Model.lenN it)%N then [] else it.
 Definition raw_shared (it : list mapping) (strat : N) (host : hostg) (p : prepared) : list mapping :=
   if N.eqb strat 0 then raw_of_enum it else raw_of strat host p.
 
 Definition side_okb_with (it : list mapping) (host : hostg) (p : prepared) : bool :=
   let H := host_c06 host in let P := pat_c06 (p_pat p) in
   negb (p_flag p) && C06_Model.gwfb H && C06_Model.gwfb P
-  && (C06_Model.lenN it <=? DEFAULT_THRESHOLD)%N
+  && (C06_Model.lenN it <=? thr_val)%N
   && nodupb (node_ids (p_rc p)) && simple_edgesb (gedges (p_rc p)) && closedb (p_rc p)
   && forallb (fun u => LGraph.mem u (node_ids (p_rc p))) (node_ids (p_pat p)).
 Definition side_okb (host : hostg) (p : prepared) : bool := side_okb_with (all_enum host p) host p.
@@ -219,7 +230,7 @@ End Bound.
 
 Definition side_okb_c_with (it : list mapping) (host : hostg) (p : prepared) : bool :=
   let H := host_c06 host in let P := pat_c06 (p_pat p) in
-  side_okb_with it host p && (c_comp_bound (monos_on' H P) true H P <=? DEFAULT_THRESHOLD)%N.
+  side_okb_with it host p && (c_comp_bound (monos_on' H P) true H P <=? thr_val)%N.
 Definition side_okb_c (host : hostg) (p : prepared) : bool := side_okb_c_with (all_enum host p) host p.
 
 Definition t_variant (invert implicit_temp explicit_stage : bool) (strats : list N) (v : hostg * its) : tok :=
@@ -284,3 +295,9 @@ Definition run_c05w (invert implicit_temp explicit_stage : bool) (strats : list 
       L [run_c05 invert implicit_temp explicit_stage strats (map (fun w => (fst (fst (fst w)), snd (fst (fst w)))) ws);
          tlist (fun w => tbool (rewriting_okb host0 tpl0 w)) ws]
   end.
+End WithThr.
+
+(** the run function of the harness: [embed_threshold] is the constructor option of the reactor (None = not given) *)
+Definition run_c05t (embed_threshold : option N) (invert implicit_temp explicit_stage : bool) (strats : list N)
+           (ws : list (hostg * its * list (N * N) * list (N * N))) : tok :=
+  @run_c05w (thr_of embed_threshold) invert implicit_temp explicit_stage strats ws.
